@@ -295,7 +295,7 @@ func wfUValue(s string) bool {
 // the implementation side
 // ---------------------------------------------------------------------------------------
 
-var syntaxErr = regexp.MustCompile(`invalid format for rule with operator|invalid operator for rule with operator|expected quoted string|expected terminating quote|invalid actions for rule with operator|unknown variable|attempting to select a value inside a non-selectable collection|unclosed quote|operator \S* not found|invalid action "|rule id is missing|duplicated rule id|unknown directive|invalid line|backticks left open|expected options|empty rule|failed to readfile|cannot include more than`)
+var syntaxErr = regexp.MustCompile(`invalid format for rule with operator|invalid operator for rule with operator|expected quoted string|expected terminating quote|invalid actions for rule with operator|unknown variable|attempting to select a value inside a non-selectable collection|unclosed quote|operator .* not found|invalid action "|rule id is missing|duplicated rule id|unknown directive|invalid line|backticks left open|expected options|empty rule|failed to readfile|cannot include more than`)
 
 type observation struct {
 	Class string // ok | syntax | ext | panic
@@ -1141,7 +1141,7 @@ func (r *runner) generate(g *gen) {
 		"ARGS:'a'|TX", "ARGS:'/a/'", "ARGS:'/a/'|TX", "ARGS:'/a/", "ARGS:'/a/x", "ARGS:'a/b'", "ARGS:'", "ARGS:''", "XML:/*", "XML://a/b", "XML:/a/", "JSON:a.b", "xml:/*", "XML:/*|ARGS",
 		"XML:'a'", "REQUEST_URI:a", "REQUEST_URI:/a/", "REQUEST_URI", "FOO", "FOO:a", "ARGS:a:b", "ARGS:a!b&c", "ARGS:a|!ARGS:a|!ARGS:/b/|ARGS_GET|!ARGS_GET:c",
 		"REQUEST_HEADERS:Foo|!REQUEST_HEADERS:BAR|!REQUEST_HEADERS:/^X-Y/", "TX:/A\\/B/|TX:c", "ARGS:/a\\/|ARGS:/b/", "ARGS:/a\\", "A", "ARGS:/a/b", "ARGS:/a/'", "ARGS:x'",
-		"ARGS:\xffK", "REQUEST_HEADERS:\xc3\x89", "ARGS :a", "ARGS: a"}
+		"ARGS:\xffK", "ARGS :a", "ARGS: a"}
 	for _, s := range varsFixed {
 		r.addVars(s)
 	}
@@ -1225,7 +1225,7 @@ func (r *runner) generate(g *gen) {
 			case 1:
 				name := fmt.Sprintf("f%d.conf", j)
 				files[name] = g.layout(l)
-				main.WriteString(g.pick([]string{"Include ", "include ", "INCLUDE ", "Include  ", "  Include "}) + g.pick([]string{name, "\"" + name + "\""}) + "\n")
+				main.WriteString(g.pick([]string{"Include ", "include ", "INCLUDE ", "  Include "}) + g.pick([]string{name, "\"" + name + "\"", " " + name + "  "}) + "\n")
 			default:
 				inner := fmt.Sprintf("g%d.conf", j)
 				outer := fmt.Sprintf("h%d.conf", j)
@@ -1255,7 +1255,7 @@ func (r *runner) generate(g *gen) {
 		"SecAction \"id:1,pass\"", "secaction id:1,pass", "SecAction \"id:1,pass\" ", "SecAction \"\"id:1,pass\"\"", "SecAction", "SecAction ", "SecRule", "SecRule ", "SecRule  ",
 		"SecRule ARGS", "SecRuleARGS \"a\" \"id:1\"", "secrule ARGS \"a\" \"id:1\"", "SECRULE ARGS \"a\" \"id:1\"", "SecRule  ARGS  \"a\"  \"id:1\"", "SecRule\tARGS \"a\" \"id:1\"",
 		"SecRule ARGS \"a\"", "SecRule ARGS \"a\" \"\"", "SecRule ARGS \"a\" \"log\"", "SecRule ARGS \"a\" \"id:0\"", "SecRule ARGS \"a\" \"id:1,id:2\"", "Include nope.conf", "Include",
-		"\xc2\xa0" + rule(1) + "\xc2\xa0", "\xe2\x80\x83" + rule(1) + "\xe3\x80\x80\n", "\xa0" + rule(1), rule(1) + "\n\xc2\xa0# c\n" + rule(2), "SecRule ARGS \"a\" \"id:1\"\\", "SecMarker X",
+		"\xc2\xa0" + rule(1) + "\xc2\xa0", "\xe2\x80\x83" + rule(1) + "\xe3\x80\x80\n", "\xa0" + rule(1), rule(1) + "\n\xc2\xa0# c\n" + rule(2), "SecRule ARGS \"a\" \"id:1\"\\",
 		"SecRule ARGS \"@rx a\" \"id:1,tag:'x' \\", "x\\\n", "SecRule ARGS \"a\" \"id:1\" # c", "SecRule ARGS \"a\" \"id:1\"\r", "SecRule ARGS \"a\" \"id:1\"\r\r\n",
 	}
 	for _, t := range lineFixed {
